@@ -23,7 +23,7 @@ Ltac frame_tac :=
   let w' := fresh "w'" in let s' := fresh "s'" in let H := fresh "H" in
   intros p w s w' s' H;
   unfold pure, purep, rbind in H;
-  cbv beta delta [
+  cbv beta iota zeta delta [
     g_dup g_pop g_swap g_rot g_flush g_depth g_yank g_shove g_yankdup g_define
     bool_bin boolean_eq boolean_and boolean_or boolean_not boolean_from_float boolean_from_integer boolean_id
     int_bin int_cmp integer_add integer_sub integer_mul integer_div integer_mod integer_lt integer_eq integer_gt
@@ -36,7 +36,7 @@ Ltac frame_tac :=
     code_from_int code_from_name code_if exec_if code_insert code_length code_list code_nth code_null code_position
     code_print code_quote code_size code_subst code_id noop exec_eq exec_k exec_s exec_y exec_id exec_cmd
     index_current index_define index_destination index_increase
-    push_int push_bool push_float push_code push_exec push_name libm1 rbind] in H;
+    push_int push_bool push_float push_code push_exec push_name libm1 rbind pure purep fst snd] in H;
   split_matches H;
   inversion H; subst; clear H;
   so_split; intros; try discriminate; reflexivity.
